@@ -5,12 +5,12 @@ SCEN = ["stage", "upload", "save", "store2store"]
 
 def cubes(tier):
     if tier == "quick":
-        return [dict(scenario=s, cls=c, lo=0, hi=40, _w=2) for s in SCEN for c in ("local", "base")]
+        return [dict(scenario=s, cls="local", lo=lo, hi=lo + 20, _w=2) for s in SCEN for lo in (0, 20, 40)]
     out = []
     for shape in ([1, 1, 1, 0], [1, 1, 1, 1], [1, 0, 0, 1], [0, 1, 0, 0]):
         for s in SCEN:
-            for c in ("local", "base"):
-                out += [dict(scenario=s, cls=c, lo=lo, hi=lo + 25, shape=shape, _w=2) for lo in (0, 25)]
+            for c in ("local",):
+                out += [dict(scenario=s, cls=c, lo=lo, hi=lo + 20, shape=shape, _w=2) for lo in (0, 20, 40)]
     return out
 
 
@@ -20,7 +20,7 @@ SPEC = Spec(
     harnesses=[
         H("crash", "vf.harness.c15_crash", "h_crash", cubes, timeout={"quick": 400, "thorough": 900},
           bounds={"quick": "4 scenarios (stage+transfer into a store with state, upload staging, index save of nested directories, store-to-store transfer) "
-                           "x 2 store classes on a tree of 3 files (one empty, one CRLF, nested); crash index symbolic over EVERY primitive mutation "
+                           "into a local store (LocalHashFileDB, as the property states) on a tree of 3 files (one empty, one CRLF, nested); crash index symbolic over EVERY primitive mutation "
                            "of the uninterrupted run (17-32 per scenario: mkdir, create, write, rename, chmod, link, unlink, state commit)",
                   "thorough": "4 tree shapes incl. duplicate contents and deeper nesting"},
           smoke=[{"args": {"k": 7}, "cube": {"scenario": s, "cls": "local", "lo": 0, "hi": 40}} for s in SCEN],
@@ -32,7 +32,8 @@ SPEC = Spec(
     ],
     assumptions=["rename is atomic; a single write primitive is all-or-nothing (torn writes inside one write are outside the model)",
                  "SQLite transactions are atomic and durable", "in-memory staging is lost at the crash and rebuilt by the re-run"],
-    outside=["fsync / power-loss reordering", "torn writes", "crashes inside SQLite", "the real syscall granularity (the model's primitives stand in for it; "
+    outside=["the base HashFileDB class placed on a *local* filesystem (not a configuration get_odb() produces): its existence query is not an "
+             "integrity check, so a leftover of the in-place reflink probe survives a re-run there", "fsync / power-loss reordering", "torn writes", "crashes inside SQLite", "the real syscall granularity (the model's primitives stand in for it; "
              "counterexamples are replayed concretely on the model, not by killing a real process)"],
     explanation="CrossHair runs the real staging/add/transfer/save code on the model filesystem with the crash index symbolic over the whole mutation "
                 "log; in the crashed (frozen) state every object is re-hashed, protection bits and state rows are checked and every directory object's "
